@@ -570,12 +570,30 @@ void linearCase(Ctx& c, vh::Rng& g) {
 
 // --------------------------------------------------------------------------- stream: degenerate
 // (a) a quaternion of length ZERO (the boundary of "unnormalised quaternions"): normalisation yields 0/0;
-// (b) Slider + Rod where the Rod's Jacobian q/|p| is 0 or tiny and the Rod cannot be met at all.
+// (b) Slider + Rod where the Rod's Jacobian q/|p| is 0 or tiny and the Rod cannot be met at all;
+// (c) a velocity constraint without any real solution (quadratic SpeedCoupler).
 void degenerateCase(Ctx& c, vh::Rng& g) {
     Model M;
     M.bodies.push_back(M.matter.Ground()); M.parent.push_back(0); M.mtype.push_back(-1);
     Body::Rigid body(MassProperties(1, Vec3(0), UnitInertia(1)));
-    if (g.coin()) {
+    const int variant = g.below(3);
+    if (variant == 2) {
+        // (c) Pin + SpeedCoupler f(u) = c + b u^2/2 with c,b > 0: no real root; projectU's fixed-Jacobian Newton iteration
+        //     started at a small u overshoots and then grows super-exponentially (finite input, 7 iterations)
+        MobilizedBody::Pin b1(M.matter.Ground(), Transform(), body, Transform());
+        M.bodies.push_back(b1); M.parent.push_back(0); M.mtype.push_back(mPin);
+        QuadFunction* f = new QuadFunction(g, 1, true); f->c = g.range(0.5, 2.0); f->a[0] = 0; f->b[0] = g.range(0.5, 2.0);
+        Array_<MobilizedBodyIndex> mb, qb; Array_<MobilizerUIndex> ui; Array_<MobilizerQIndex> qi;
+        mb.push_back(b1.getMobilizedBodyIndex()); ui.push_back(MobilizerUIndex(0));
+        Constraint::SpeedCoupler(M.matter, f, mb, ui, qb, qi);
+        M.state = M.system.realizeTopology(); M.system.realizeModel(M.state);
+        State& s = M.state;
+        s.updU()[0] = g.signedMag(1.0, 9.0) * 1e-7;
+        M.system.realize(s, Stage::Position); M.system.prescribeU(s); M.system.realize(s, Stage::Velocity);
+        doProjectU(c, M, s, randomOptions(g), "noRoot");
+        return;
+    }
+    if (variant == 1) {
         const bool free = g.coin();
         MobilizedBody b1 = free ? (MobilizedBody)MobilizedBody::Free(M.matter.Ground(), Transform(), body, Transform())
                                 : (MobilizedBody)MobilizedBody::Ball(M.matter.Ground(), Transform(), body, Transform());
